@@ -146,6 +146,36 @@ class SizeFilterPair(object):
         return None
 
 
+@oracle('py_stringsimjoin.filter.prefix_filter.PrefixFilter.filter_pair')
+class PrefixFilterPair(object):
+    def inputs(self, case, rng, model, tier):
+        for _ in range(3000 if tier != 'thorough' else 30000):
+            l, r = gen_strings(rng, 2)
+            yield dict(l=l, r=r, t=rng.choice(THR), allow_missing=rng.random() < 0.5, allow_empty=rng.random() < 0.5)
+
+    def check(self, case, a):
+        from py_stringmatching import WhitespaceTokenizer
+        from py_stringsimjoin.filter.prefix_filter import PrefixFilter
+        M = measure_of(case)
+        f = PrefixFilter(WhitespaceTokenizer(return_set=True), M, a['t'], a['allow_empty'], a['allow_missing'])
+        got = f.filter_pair(a['l'], a['r'])
+        if miss(a['l']) or miss(a['r']):
+            want = not a['allow_missing']
+            return None if bool(got) == want else 'filter_pair(%r, %r) with a missing value returned %r' % (a['l'], a['r'], got)
+        x, y = set(T(a['l'])), set(T(a['r']))
+        if not x and not y:
+            want = not a['allow_empty']
+            return None if bool(got) == want else 'both values without tokens: returned %r, allow_empty=%r' % (got, a['allow_empty'])
+        if got and qualifies(M, a['t'])(a['l'], a['r']):
+            return 'filter_pair(%r, %r) [%s %r] drops a pair whose similarity meets the threshold' % (a['l'], a['r'], M, a['t'])
+        if not got and not (x & y):
+            return 'filter_pair(%r, %r) [%s %r] keeps a pair without a common token' % (a['l'], a['r'], M, a['t'])
+        return None
+
+
+alias('py_stringsimjoin.utils.token_ordering.gen_token_ordering_for_lists', 'py_stringsimjoin.filter.prefix_filter.PrefixFilter.filter_pair')
+
+
 # ----------------------------------------------------------------------------- filter_tables / overlap_join_py
 class _Tables(object):
     """entry points of the driver shape: validation, frame, header, _id, rows == brute force"""
